@@ -406,6 +406,10 @@ def plan(tier, seed):
     for front in (False, True):
         tasks.append(('plain', 'mc.props.c15:t_cyc', {'maxlen': 5, 'front': front, 'limit': 1000}))
     add('pda', [2, 1, 1, 2], 2, 0, 4, opt=['γ', 'Ω'])
+    base = list(tasks)
+    sel = lambda name, p: name.endswith('t_space') and ((p['kind'] == 'pda' and p['space'] in ([1, 1, 1, 3], [2, 1, 1, 2], ['multichar'])) or (p['kind'] == 'nfa' and p['space'] in ([2, 1, None], ['chain', 4]) and not p['opt']) or (p['kind'] == 'dfa' and p['space'] == [2, 2]))
+    for kn in ({'dorder': 'aq'}, {'dorder': 'rev'}):
+        tasks += common.knob_copies(base, sel, kn)
     return {'tasks': tasks,
             'bounds': {'spaces': 'DFA(n<=2,k<=2), DFA(3,1) x accepted words <= 4, DFA(3,2){}; NFA(1,1), NFA(2,1) all, NFA(2,2,{}), NFA(3,1,<=4){}, eps-chains 4..5, 4-state and 3-state epsilon-heavy families{}, NFA(4,1,4) with q0=s0,|F|=1 (stride) x words <= 1..3; PDA(1,1,1,<=3), PDA(2,1,1,<=2), PDA(2,1,1,3){}, PDA(2,2,1,<=2){}, PDA(2,1,2,<=2), push family (3 states, two push moves with different symbols into one state, 26 244 automata, stride 1/2 in quick) x words <= 3 at closure limit {}; CNF(3) with <= {} rules x generated words 1..4 x leftmost/rightmost/any'.format(
                 ' stride 1/4' if q else '', '<=4' if q else 'all', ' stride 1/4' if q else '', ' stride 1/16' if q else ' stride 1/2', ' stride 1/8' if q else '', ' stride 1/4' if q else '', PDA_LIMIT, 4 if q else 5),
